@@ -8,6 +8,7 @@ by kernel evaluation.  Re-checked whenever `Generated/Schema.lean` changes.
 import OfxModel.Ofx.WF
 import OfxModel.Generated.Schema
 import OfxModel.Generated.Tables
+import OfxProofs.Lemmas.WFBridge
 
 namespace Ofx.Gen
 open Ofx Ofx.WF Ofx.Generated
@@ -34,5 +35,22 @@ theorem schema_enums_ok : enumsOk schema = true := by decide +kernel
 
 /-- class names are strictly increasing, hence pairwise distinct (lookup by tag is unambiguous) -/
 theorem schema_names_sorted : namesSorted (schema.classes.map (·.name)) = true := by decide +kernel
+
+/-- classes for which the round-trip premises fail (recorded known finding: list block interleaved) -/
+def roundTripExceptions : List Str :=
+  [['T','A','X','1','0','9','9','I','N','T','_','V','1','0','0']]
+
+/-- every other class satisfies the decidable premises of the aggregate round-trip theorem -/
+theorem schema_roundTripOk :
+    schema.classes.all (fun c => roundTripExceptions.contains c.name || roundTripOk schema c) = true := by
+  decide +kernel
+
+/-- … hence the propositional premises `Agg.ClsWF` -/
+theorem schema_clsWF (c : Cls) (hc : c ∈ schema.classes) (hx : c.name ∉ roundTripExceptions) :
+    Agg.ClsWF schema c := by
+  have := (List.all_eq_true.mp schema_roundTripOk) c hc
+  have hx' : roundTripExceptions.contains c.name = false := by simpa using hx
+  rw [hx', Bool.false_or] at this
+  exact roundTripOk_clsWF schema c this
 
 end Ofx.Gen
